@@ -214,7 +214,7 @@ func oracleClient(st *step) *verdict {
 			seen[tag+"/"+k] = true
 		}
 		if !strings.HasPrefix(st.reply, "ok") || !sameSet(want, strings.Fields(st.reply)[1:]) {
-			return &verdict{whatClient, fmt.Sprintf("FindMissing: want %v, reply %q", want, st.reply)}
+			return &verdict{whatClientFM, fmt.Sprintf("want %v, reply %q", want, st.reply)}
 		}
 	}
 	return nil
